@@ -30,13 +30,6 @@ func ns2s(ns string) string {
 	return fmt.Sprintf("%d.%09ds", n/1000000000, n%1000000000)
 }
 
-func atoi64s(s string) int64 {
-	var v int64
-	if _, err := fmt.Sscan(s, &v); err != nil {
-		panic("bad int " + s)
-	}
-	return v
-}
 
 // retryServiceConfig builds the JSON service config of a cfg op (shared with s_pickdone).
 func retryServiceConfig(m map[string]string, lb string) string {
